@@ -216,6 +216,10 @@ class SSet(Sym):
         s.guards = list(guards) if guards is not None else [True] * len(s.items)   # element i is in the set iff guards[i]
 
 
+class KeysList(list):
+    """dict.keys() of a concrete dict with symbolic contents: a list for iteration, set-like for comparisons"""
+
+
 class SView(Sym):
     """dict view (items/keys/values)"""
     pytype = list
